@@ -327,3 +327,11 @@ prop("C07",
      rule=("cases are catalogue entries (each >= 2 000 measured calls), random adaptor trees and random graphs; non-trivial = every entry (the test-suite has no allocation test); "
            "distinct = number of catalogue entries (by construction) + hash of tree expression / graph parameters; evaluations = measured calls"),
      stages=[{"name": "main", "build": "fast", "bin": "c07"}])
+
+# Every property also runs its monitor on a stock release build (debug assertions and overflow
+# checks off): a side effect wrapped in debug_assert!, or an arithmetic path that only exists with
+# assertions off, is invisible to the 'fast' profile (release + debug-assertions) of the main stage.
+for _pid, _p in PROPS.items():
+    if not any(s["build"] == "release" for s in _p["stages"]):
+        _main = [s for s in _p["stages"] if s["name"] == "main"][0]
+        _p["stages"].append({"name": "release", "build": "release", "bin": _main["bin"]})
